@@ -82,8 +82,27 @@ func Load(repo string, patterns []string) (*World, error) {
 			}
 			w.ContractFiles = append(w.ContractFiles, f)
 			for _, c := range cs {
-				if _, dup := w.Contracts[c.Key]; dup {
-					errs = append(errs, fmt.Sprintf("%s: duplicate contract for %s", f, c.Key))
+				if prev, dup := w.Contracts[c.Key]; dup {
+					base, ext := prev, c
+					if prev.Extend && !c.Extend {
+						base, ext = c, prev
+					}
+					if !ext.Extend {
+						errs = append(errs, fmt.Sprintf("%s: duplicate contract for %s", f, c.Key))
+					}
+					base.Requires = append(base.Requires, ext.Requires...)
+					base.Ensures = append(base.Ensures, ext.Ensures...)
+					base.Loops = append(base.Loops, ext.Loops...)
+					for k, v := range ext.Props {
+						if v {
+							base.Props[k] = true
+						}
+					}
+					if ext.MaxPaths > base.MaxPaths {
+						base.MaxPaths = ext.MaxPaths
+					}
+					w.Contracts[c.Key] = base
+					continue
 				}
 				w.Contracts[c.Key] = c
 			}
